@@ -17,7 +17,7 @@ CAPS = {
     "str": {"str", "startswith", "endswith", "getitem", "len", "lower", "upper", "strip", "split", "format", "contains", "iterate"},
 }
 LISTLIKE_NAMES = {"list", "tuple", "set", "frozenset"}
-NEEDS = {"builtin:len": "len", "builtin:tuple": "tuple", "builtin:list": "list", "builtin:dict": "dict", "iterate": "iterate",
+NEEDS = {"truth": "len", "builtin:len": "len", "builtin:tuple": "tuple", "builtin:list": "list", "builtin:dict": "dict", "iterate": "iterate",
          "getitem": "getitem", "contains": "contains", "builtin:sorted": "sorted", "builtin:enumerate": "enumerate"}
 GUARD_ONLY = {"builtin:str", "builtin:repr", "builtin:format", "builtin:float", "builtin:int", "format", "builtin:hash",
               "builtin:next", "builtin:iter", "builtin:bool", "builtin:vars", "builtin:dir", "builtin:getattr"}
